@@ -71,7 +71,7 @@ CHECKS = {
         text="C04_fold and C04_before_stmt are Qed-closed for every stack of tracers, handler list, outcome function and initial value. "
              "handle_normal/skipall_emit_return and make_ret are regenerated from tracer.py/emit_event.py on every run, so the proof is re-checked "
              "against the current source; the loops are a transcription tied by running 600 generated arrangements through real tracer classes and "
-             "through the model in coqc (value, call log, switches). The ten-line reference fold is the search oracle.",
+             "through the model in coqc (value, call log, switches). The ten-line reference fold is the search oracle. C04_tracer_fold_any_event / C04_stack_fold_any_event: since the return rule no longer singles out call / exception the fold theorems hold for EVERY event; K-sysfold drives tracer._sys_tracer with scripted handlers on call / exception / return / line and compares with tracer_emit.",
         note="Trusted: Coq kernel + vm_compute; translator gen_emitret.py; hand transcription of the two loops (validated by correspondence); harness. "
              "Handlers returning the internal (SkipAll, x) tuple are outside the fragment; should_propagate_handler_exception is modelled as propagation.",
         ref="DESIGN.md section 7 C04"),
@@ -139,7 +139,7 @@ CHECKS = {
              "program between its statements, also inside frames of a file the tracer does not accept (logs of A and B and sys.gettrace() afterwards equal the run without pyccolo). "
              "C09_histories (model/SysHist.v: plain machine with a mutable global trace function vs pyccolo machine): for every family of third-party functions, subscription, run with "
              "sys.settrace calls anywhere and initial function, the function in place afterwards, the third-party log and the handler log are the plain machine's; stated over flags "
-             "regenerated from tracer.py (gen_syshist.py); C09_histories_refuted keeps the two repaired defects as witnesses; every real history is replayed on the model.",
+             "regenerated from tracer.py (gen_syshist.py); C09_histories_refuted keeps the two repaired defects as witnesses; every real history is replayed on the model. gen/SysFlags.v also reports sys_noncall_returns_none and sys_rebinds_local; third parties whose local function hands over to another local function (tp_switch) are part of C09_histories and of the real histories; C09_no_rebind_refuted keeps the witness.",
         note="Trusted: Coq kernel + vm_compute; the transcription of trace_trampoline (validated by the correspondence itself); hand transcription of "
              "_sys_tracer/_make_composed_tracer; harness. Program results are decided by the oracle, not by a theorem; handlers are observing; translator gen_syshist.py.",
         ref="DESIGN.md section 7 C09"),
@@ -191,7 +191,7 @@ CHECKS = {
              "disabling loop of exec_module; it is tied to import_hooks.py by importing generated packages (sub-package, relative / absolute / from-imports, re-imports, a "
              "pre-imported module, a post-context import) in ~130 real processes per run: for every stack of 1-3 tracers with independent filename filters the set of tracers "
              "that got events from each module is compared with compile_of in coqc, and the oracle compares module namespaces with the plain process, every tracer's events with "
-             "its events alone and with its accept-everything run restricted to the accepted files, and checks that nothing is instrumented after the context.",
+             "its events alone and with its accept-everything run restricted to the accepted files, and checks that nothing is instrumented after the context. C12_later_iff / C12_after_context / C12_later_now: a loader handed out under one stack and loading under another (lazy loading) is rewritten for exactly the accepting tracers still on the stack, and is a plain loader after the context; tied by deferred loads of a module whose spec was obtained inside the context.",
         note="Trusted: Coq kernel + vm_compute; hand transcription of the decisions (validated by correspondence); importlib's finder protocol, sys.modules and loaders are not "
              "modelled; the harness. The recorded finding (tracers switched off during foreign modules' import) is outside the theorems: they decide WHO a module is "
              "rewritten for, the finding is about delivery while another module's body runs.",
@@ -220,7 +220,7 @@ CHECKS = {
              "order; C14_cols_refuted / C14_cols_tie_refuted show the two ways the side condition fails on the unchanged code (recorded as known "
              "findings). model/Augment.v transcribes both replace_tokens_and_get_augmented_positions and fix_positions and is compared with "
              "syntax_augmentation.py on every replacement pass and every line of 300 generated sources (about 1200 evaluations); the oracle compares "
-             "the preprocessed text with textual replacement and get_augmentations over all nodes with the generator's placement record.",
+             "the preprocessed text with textual replacement and get_augmentations over all nodes with the generator's placement record. C14_text_self_identity / C14_text_no_occurrence: the replacement pass copies what stands between and inside opaque tokens from the source (replacing a token by itself gives the source back for every token sequence; a source without occurrences comes back unchanged); the generator has layout cases (indented blocks, tabs, f-strings with braces, backslash continuations, multi-line strings, non-ASCII characters, parenthesized objects).",
         note="Trusted: Coq kernel + vm_compute; hand transcription (validated by correspondence); Python's tokenizer and the parser's column conventions "
              "are inputs; the text-replacement half of the property and the node lookup by column are decided by correspondence and oracle, not by a theorem.",
         ref="DESIGN.md section 7 C14"),
@@ -232,7 +232,7 @@ CHECKS = {
              "(`builtins` / `__` bound by the program are dropped). C15_result_passthrough: supplied names that are no parameters of the scaffold (declared global by the program, "
              "or not possible parameter names: 'class', 'a b', 'None', '__debug__') are handed back unchanged: the result holds name by name what the reference holds. "
              "Tied to tracer.py by 400 generated programs x mappings x {instrumented, not, "
-             "NoopTracer}; the oracle runs the same text as a function body in plain Python and also compares eval with the built-in eval.",
+             "NoopTracer}; the oracle runs the same text as a function body in plain Python and also compares eval with the built-in eval. C15_same_mapping / C15_same_mapping_raises: locals IS globals (one mapping object, the default at module level): the mapping afterwards and the result agree name by name with the function-body reference; 30% of the cases pass one dict as both.",
         note="Trusted: Coq kernel + vm_compute; the abstraction of a straight-line program as its binding operations (CPython's function-local scoping "
              "is modelled); generator computing that abstraction; harness. eval is covered by the oracle only.",
         ref="DESIGN.md section 7 C15"),
@@ -242,7 +242,7 @@ CHECKS = {
              "handler registered reentrant), C16_restore/C16_resume (both switches as before after any emission/region/try, also on propagated raises) are "
              "Qed-closed for all finite behaviour trees and all sequences of top-level statements (emissions, regions, try blocks). Tied to emit_event.py/tracer.py by 300 generated trees "
              "executed by real handlers that pyc.exec instrumented code, comparing invocation log (depth, occurrence), raises and switches; an 'escape' profile makes propagated "
-             "handler exceptions leave nested emissions and regions and be caught by a running handler or at top level, which goes on to run instrumented code.",
+             "handler exceptions leave nested emissions and regions and be caught by a running handler or at top level, which goes on to run instrumented code. A quarter of the behaviour trees start from the `call` event of a sandbox function (system events go through tracer._sys_tracer, which applies the same rule since 601255a).",
         note="Trusted: Coq kernel + vm_compute; hand transcription of the switch handling and gating (validated by correspondence); harness. Single thread.",
         ref="DESIGN.md section 7 C16"),
     "C17": dict(
@@ -291,7 +291,7 @@ CHECKS = {
              "the undecorated copy, tracer stack and flags before and after every call, the events delivered during the call (and their node types) with the same "
              "function text instrumented through exec, node validity (the text at the node's position in the FILE parses to a node of its type), the text of the innermost "
              "traceback line, and that nothing is delivered outside calls. Definitions indented under `if`, multi-line string literals, `from __future__ import annotations`, "
-             "tracers with a sys.settrace handler and functions far from line 1 are generated.",
+             "tracers with a sys.settrace handler and functions far from line 1 are generated. C19_find_code_sound / _top / _generic: tracer.find_function_code over code-object trees (what is taken carries the name and is reachable through type-parameter scopes only); K-select compares the real pick on compiled snippets.",
         note="Trusted: Coq kernel + vm_compute; model/Ctx.v + Decor.v transcriptions (validated by C06 / C07's correspondence and by the before/after snapshots here); the "
              "reference events come from the exec path, which C01 / C02 decide. Behavioural equality of the rewritten body is C01's theorem, not restated here.",
         ref="DESIGN.md section 7 C19"),
@@ -300,7 +300,7 @@ CHECKS = {
         text="Seven Qed-closed theorems over model/Stack.v (every well-nested operation sequence, every declaration with distinct names, every field order): "
              "frames of every stack preserved, push saves/resets, pop restores, read at any depth, clear restores, registration covers exactly the declared "
              "fields. Tied to trace_stack.py by running 500 generated declarations x operation sequences through both and comparing every attribute after "
-             "every operation; a list-of-dicts reference oracle states the property directly on the implementation.",
+             "every operation; a list-of-dicts reference oracle states the property directly on the implementation. A push resets a container to a fresh copy of the value it was DECLARED with (IFresh k items), and every needing_manual_initialization block adds its fields: the model and the reference oracle had transcribed the two defects repaired by 8d4875c.",
         note="Trusted: Coq kernel + vm_compute; hand transcription of trace_stack.py over pure values (no aliasing) validated by correspondence; the harness. "
              "wf (distinct names) is a hypothesis, decidable and checked on every generated declaration.",
         ref="DESIGN.md section 7 C20"),
